@@ -355,6 +355,9 @@ def isinstance_(ex, v, t) -> VBool:
         mro = ex.world.mro(v.cls)
         return VBool(any(c in mro for c in clss))
     if isinstance(v, VOpaque):
+        h = ex.cfg.lib_overrides.get(("isinstance", v.kind))
+        if h is not None:
+            return h(ex, v, libs, clss)
         tn = v.info.get("type")
         if tn is not None:
             return VBool(tn in libs or any(t in libs for t in v.info.get("bases", ())))
